@@ -55,8 +55,8 @@ Print Assumptions C02_ligature_keeps_characters_partial.
 (* every attachment refers to a glyph inside the run: gpos::apply as a whole (every lookup type, nested
    contextual lookups, kern fallback) keeps the run's length and glyphs and leaves every mark pointing
    at an earlier glyph and every cursive glyph at a later one — for ARBITRARY GPOS/GDEF/kern data *)
-Theorem C02_attachments_in_range_partial : forall m t gd kern kerning custom script lang l l',
-  wf l -> gpos_apply m t gd kern kerning custom script lang l = Ok l' ->
+Theorem C02_attachments_in_range_partial : forall t gd kern kerning custom script lang l l',
+  wf l -> gpos_apply t gd kern kerning custom script lang l = Ok l' ->
   len l' = len l /\ iids l' = iids l /\ wf l'.
 Proof. exact attachment_indices_in_range. Qed.
 Print Assumptions C02_attachments_in_range_partial.
